@@ -13,6 +13,17 @@ def parent_map(root):
     return pm
 
 
+def fresh_copy(node):
+    """deep copy of a syntax tree without the analysis caches hung on it (a copied parent map would describe the original)"""
+    import copy
+    new = copy.deepcopy(node)
+    for n in ast.walk(new):
+        for attr in ("_sa_parents", "_sa_cfg"):
+            if hasattr(n, attr):
+                delattr(n, attr)
+    return new
+
+
 def ancestors(root, node):
     pm = parent_map(root)
     out = []
@@ -250,6 +261,6 @@ def inline_simple_helpers(ix, f, depth=2, root=None):
                     return node
                 m[l_.targets[0].id] = _Sub().visit(copy.deepcopy(l_.value))
             return ast.copy_location(_Sub().visit(copy.deepcopy(body[0].value)), node)
-    new = _Inl().visit(copy.deepcopy(root if root is not None else f.node))
+    new = _Inl().visit(fresh_copy(root if root is not None else f.node))
     ast.fix_missing_locations(new)
     return new
